@@ -276,6 +276,11 @@ func (g *Gen) randTree(depth int) GExpr {
 	case r < 50:
 		m := GMatch{Path: pathPool[g.r.Intn(len(pathPool))], Op: matchOps[g.r.Intn(len(matchOps))], Contains: g.r.Intn(2) == 0}
 		m.Raw = rawPool[g.r.Intn(len(rawPool))]
+		if g.r.Intn(8) == 0 {
+			if vp := pathPool[g.r.Intn(len(pathPool))]; len(vp) > 1 && canBexprSel(vp) && !keywords[vp[0]] {
+				m.ValSel, m.Raw = vp, strings.Join(vp, ".")
+			}
+		}
 		return m
 	case r < 62:
 		return GNot{g.randTree(depth - 1)}
@@ -441,6 +446,36 @@ func fragParseBytes(g *Gen, n int, o *Out) {
 
 // FR-create budgets (C11): for each input measure N (unlimited step count), then parse under
 // budgets around N and on a geometric sweep, through both option spellings.
+// safeCount / safeCreateEv: the direct calls of the budget oracle; a panic that escapes the library is a finding,
+// not a crash of the harness.
+func safeCount(o *Out, in string, b uint64) (cnt uint64) {
+	defer func() {
+		if r := recover(); r != nil {
+			for _, p := range []string{"C11", "C10"} {
+				o.finding(Finding{Property: p, Kind: "failing-input", What: fmt.Sprintf("the parser panics under a budget of %d: %v", b, r), Request: fmt.Sprintf("parse %d %s", b, hx(in))})
+			}
+		}
+	}()
+	var opts []grammar.Option
+	if b != 0 {
+		opts = append(opts, grammar.MaxExpressions(b))
+	}
+	_, _, cnt, _ = grammar.VerifParse([]byte(in), opts...)
+	return cnt
+}
+
+func safeCreateEv(o *Out, in string, opts ...bexpr.Option) (ev *bexpr.Evaluator, err error) {
+	defer func() {
+		if r := recover(); r != nil {
+			ev, err = nil, fmt.Errorf("panic: %v", r)
+			for _, p := range []string{"C11", "C10"} {
+				o.finding(Finding{Property: p, Kind: "failing-input", What: fmt.Sprintf("CreateEvaluator panics: %v", r), Request: "parse 0 " + hx(in)})
+			}
+		}
+	}()
+	return bexpr.CreateEvaluator(in, opts...)
+}
+
 func fragBudget(g *Gen, n int, o *Out) {
 	var inputs []string
 	inputs = append(inputs, "a == 1", "foo == 3x", "(foo == 1", "foo[1] == 2", "foo[\"a\" == 2", "1 in 5", "foo == \"abc", "foo[\xff", "", "(", "((((a == 1))))", "a ==", "all a as x { x == 1 }", "\xff", "not not not a == 1",
@@ -472,7 +507,7 @@ func fragBudget(g *Gen, n int, o *Out) {
 	}
 	for _, in := range inputs {
 		leave := enter("parse 0 "+hx(in), "C11", "C10", "C15")
-		_, _, N, _ := grammar.VerifParse([]byte(in))
+		N := safeCount(o, in, 0)
 		leave()
 		if N > stepCap {
 			o.count("budget:skipped-large")
@@ -496,7 +531,7 @@ func fragBudget(g *Gen, n int, o *Out) {
 			}
 			lim := emitParse(o, b, in)
 			// direct oracle
-			_, _, cnt, _ := grammar.VerifParse([]byte(in), grammar.MaxExpressions(b))
+			cnt := safeCount(o, in, b)
 			if cnt > b+1 && b != ^uint64(0) {
 				o.finding(Finding{Property: "C11", Kind: "failing-input", What: fmt.Sprintf("limited parse executed %d steps under budget %d", cnt, b), Request: fmt.Sprintf("parse %d %s", b, hx(in))})
 			}
@@ -508,7 +543,7 @@ func fragBudget(g *Gen, n int, o *Out) {
 				o.finding(Finding{Property: "C11", Kind: "failing-input", What: fmt.Sprintf("budget %d < N=%d does not fail with the max-expressions error", b, N), Request: fmt.Sprintf("parse %d %s", b, hx(in)), Detail: lim})
 			}
 			// the public option
-			ev, err := bexpr.CreateEvaluator(in, bexpr.WithMaxExpressions(b))
+			ev, err := safeCreateEv(o, in, bexpr.WithMaxExpressions(b))
 			accepted := strings.HasPrefix(lim, "ok")
 			if (err == nil) != accepted || (ev != nil) != accepted {
 				o.finding(Finding{Property: "C11", Kind: "failing-input", What: "WithMaxExpressions and grammar.MaxExpressions disagree", Request: fmt.Sprintf("parse %d %s", b, hx(in))})
@@ -534,8 +569,8 @@ func fragBudget(g *Gen, n int, o *Out) {
 		}
 		// an unlimited parse right after limited ones gives the unlimited result again
 		for rep := 0; rep < 6; rep++ {
-			grammar.Parse("", []byte(in), grammar.MaxExpressions(3))
-			grammar.Parse("", []byte("a == 1"), grammar.MaxExpressions(uint64(600+rep)))
+			safeCount(o, in, 3)
+			safeCount(o, "a == 1", uint64(600+rep))
 			again := realParse(0, []byte(in))
 			if again != unl {
 				o.finding(Finding{Property: "C11", Kind: "failing-history", What: "an unlimited parse after a limited one differs from the unlimited result", Request: "parse 0 " + hx(in), Detail: again + " vs " + unl})
@@ -546,9 +581,9 @@ func fragBudget(g *Gen, n int, o *Out) {
 		// repeated budgets: the last one wins, and a last budget of 0 lifts an earlier one
 		{
 			small := uint64(1 + len(in)%7)
-			ev1, err1 := bexpr.CreateEvaluator(in, bexpr.WithMaxExpressions(small), bexpr.WithMaxExpressions(0))
-			ev2, err2 := bexpr.CreateEvaluator(in, nil, bexpr.WithMaxExpressions(small), bexpr.WithTagName("json"), bexpr.WithMaxExpressions(N+3))
-			ev3, err3 := bexpr.CreateEvaluator(in, bexpr.WithMaxExpressions(0), bexpr.WithMaxExpressions(N+3), bexpr.WithMaxExpressions(small))
+			ev1, err1 := safeCreateEv(o, in, bexpr.WithMaxExpressions(small), bexpr.WithMaxExpressions(0))
+			ev2, err2 := safeCreateEv(o, in, nil, bexpr.WithMaxExpressions(small), bexpr.WithTagName("json"), bexpr.WithMaxExpressions(N+3))
+			ev3, err3 := safeCreateEv(o, in, bexpr.WithMaxExpressions(0), bexpr.WithMaxExpressions(N+3), bexpr.WithMaxExpressions(small))
 			acc := strings.HasPrefix(unl, "ok")
 			if (err1 == nil) != acc || (ev1 != nil) != acc || (err2 == nil) != acc || (ev2 != nil) != acc {
 				o.finding(Finding{Property: "C11", Kind: "failing-input", What: fmt.Sprintf("a later budget of 0 (or >= N) does not override an earlier budget of %d", small), Request: "parse 0 " + hx(in)})
@@ -559,7 +594,7 @@ func fragBudget(g *Gen, n int, o *Out) {
 			}
 		}
 		// zero is unlimited through the public option
-		ev, err := bexpr.CreateEvaluator(in, bexpr.WithMaxExpressions(0))
+		ev, err := safeCreateEv(o, in, bexpr.WithMaxExpressions(0))
 		if (err == nil) != strings.HasPrefix(unl, "ok") || (ev != nil) != (err == nil) {
 			o.finding(Finding{Property: "C11", Kind: "failing-input", What: "WithMaxExpressions(0) is not unlimited", Request: "parse 0 " + hx(in)})
 		}
